@@ -822,3 +822,88 @@ def jobs(tier):
     if tier != 'quick':
         q += [(('float', 'int'), (1, 1), 'integer'), (('float', 'int'), (1, 1), 'real'), (('bool', 'int', 'int'), (0, 3, 1), 'real'), (('int',), (0,), 'integer'), ((), (), 'integer')]
     return _jobs_unknown(tier) + [(h_union_step, a, 1800) for a in q]
+
+
+# ------------------------------------------------------------------------------------------------ a wrong tuple index raises an error
+TB = 'src/libawkward/builder/TupleBuilder.cpp'
+
+
+@guard
+def h_tuple_index(k, nxt_c):
+    """TupleBuilder::index(i) from any state (open or not, any field selected, no field builder active) of a tuple with k fields: a position outside
+    0..k-1 - negative ones included - or a tuple that was not begun is refused; otherwise field i becomes the selected field.  The selection
+    afterwards is always -1 (none) or a field of the tuple: the next value goes through contents_[nextindex_]"""
+    from .cpp01 import struct_of
+    slots, nslots = builder_slots()
+    mod = module_of(TB)
+    fo, sz, al, fields = mod.types.struct_layout(struct_of(mod, '_ZN7awkward12TupleBuilder5indexEl'))
+    stubs = dict(COMMON_STUBS)
+    stubs.update(_child_stubs(slots))
+    stubs['_ZNSt7__cxx119to_stringEm'] = nodeh.s_empty_string
+    m = MCtx([TB, GB], unwind=k + 8, stubs=stubs)
+    m.record('fakevt', {8 * j: (Ptr(('func', 'vf$slot%d' % j), 0), 8) for j in range(nslots)}, const=True)
+    begun, idx, length = m.bv('begun', 8), m.bv('index'), m.bv('length')
+    nxt = BV(nxt_c)          # the selected field is case-split (it indexes the vector of field builders)
+    m.assume(z3.ULE(begun, 1), length >= 0, length <= 2 ** 40)
+    cells = {}
+    for i in range(k):
+        m.record('kid%d' % i, {0: (Ptr('fakevt', 0), 8), 8: (NULL, 8), 16: (NULL, 8), 32: (length, 8)})
+        cells[16 * i] = (Ptr('kid%d' % i, 0), 8); cells[16 * i + 8] = (NULL, 8)
+    m.record('kidsbuf', cells, const=True)
+    m.record('ctrl', {0: (NULL, 8), 8: (z3.BitVecVal(1, 32), 4), 12: (z3.BitVecVal(1, 32), 4)})
+    st0 = State({}, m.mem, z3.BoolVal(True))
+    vt = m.eng.global_ptr(st0, '@_ZTVN7awkward12TupleBuilderE', mod)
+    nb = 16 * k
+    tb = {0: (Ptr(vt.obj, 16), 8), 8: (Ptr('tb', 0), 8), 16: (Ptr('ctrl', 0), 8), fo[1]: (BV(8), 8), fo[1] + 8: (z3.FPVal(1.5, z3.Float64()), 8),
+          fo[2]: (Ptr('kidsbuf', 0) if k else NULL, 8), fo[2] + 8: (Ptr('kidsbuf', nb) if k else NULL, 8), fo[2] + 16: (Ptr('kidsbuf', nb) if k else NULL, 8),
+          fo[3]: (length, 8), fo[4]: (begun, 1), fo[5]: (nxt, 8)}
+    this = m.record('tb', tb)
+    m.record('ret', {})
+    out = m.call('_ZN7awkward12TupleBuilder5indexEl', [Ptr('ret', 0), this, idx])
+    bad = z3.Or(begun == 0, idx < 0, idx >= k)
+    n1 = out.mem.o['tb'].cells[fo[5]][0]
+    obls = [('raises exactly when the tuple is not open or the position is not one of its fields', z3.simplify(out.raised) != bad),
+            ('the selected field afterwards is none or a field of the tuple', z3.And(z3.Not(out.raised), z3.Or(n1 < -1, n1 >= k))),
+            ('an accepted position becomes the selected field', z3.And(z3.Not(out.raised), n1 != idx))]
+
+    def replay(model, ent_):
+        import subprocess, os
+        ev = lambda t: model.eval(t, model_completion=True)
+        iv, bg, nx = ev(idx).as_signed_long(), ev(begun).as_long(), nxt_c
+        drv = NATIVE_PREFIX.replace('#include "awkward/builder/GrowableBuffer.h"', '#include "awkward/builder/GrowableBuffer.h"\n#include "awkward/builder/TupleBuilder.h"') + r'''
+int main(int argc, char** argv) {
+  int k = atoi(argv[1]); long long idx = atoll(argv[2]); bool begun = atoi(argv[3]) != 0; long long nxt = atoll(argv[4]);
+  ArrayBuilderOptions opts(8, 1.5);
+  std::vector<BuilderPtr> kids; for (int i = 0; i < k; i++) kids.push_back(std::make_shared<Count>(3));
+  std::shared_ptr<TupleBuilder> t = std::make_shared<TupleBuilder>(opts, kids, 3, begun, nxt);
+  bool raised = false;
+  try { t->index(idx); } catch (std::invalid_argument& e) { raised = true; }
+  bool want = !begun || idx < 0 || idx >= k;
+  int bad = 0;
+  if (raised != want) bad |= 1;
+  if (!raised && (t->nextindex_ < -1 || t->nextindex_ >= k)) bad |= 2;
+  if (!raised && !want) { try { t->integer(5); } catch (std::exception& e) { bad |= 4; } }      // the next value must reach a field builder
+  printf("bad=%d raised=%d nextindex=%lld\n", bad, (int)raised, (long long)t->nextindex_);
+  return bad ? 1 : 0;
+}
+'''
+        try:
+            exe = fullnative_link(drv)
+        except Exception as e:      # noqa
+            return False, 'replay driver did not build: %s' % str(e)[-600:], {}
+        r = subprocess.run([exe, str(k), str(iv), str(bg), str(nx)], capture_output=True, text=True, timeout=30,
+                           env=dict(os.environ, ASAN_OPTIONS='detect_leaks=0', UBSAN_OPTIONS='halt_on_error=1:exitcode=87'), errors='replace')
+        payload = dict(fields=k, index=iv, begun=bg, nextindex=nx, native=r.stdout.strip())
+        if r.returncode != 0:
+            return True, 'tuple of %d fields (%s, field %d selected), index(%d): native builder gives %s %s (1 = accepted / refused wrongly, 2 = selection outside the tuple)' % (
+                k, 'open' if bg else 'not open', nx, iv, r.stdout.strip(), [l for l in r.stderr.splitlines() if 'runtime error' in l or 'ERROR' in l][:1]), payload
+        return False, 'native builder agrees (%s)' % r.stdout.strip(), payload
+    return mdischarge(m, 'TupleBuilder::index with %d fields, field %d selected' % (k, nxt_c), obls, [('accepted', z3.Not(bad))] if k else [], replay=replay, prefer=[idx >= -5, idx <= 5],
+                      extra=dict(bounds='%d fields (case split), any int64 position, open / not open, any selected field, no field builder active' % k))
+
+
+_jobs_union = jobs
+
+
+def jobs(tier):
+    return _jobs_union(tier) + [(h_tuple_index, (k, nx), 900) for k in ((0, 2) if tier == 'quick' else (0, 1, 2, 3)) for nx in range(-1, k)]
